@@ -31,7 +31,7 @@ def varied_network(rng, kind=None):
 def add_covariances(rng, net):
     """replace the stdevs of some clusters by a banded covariance matrix with the same variances"""
     for c in net["clusters"]:
-        if len(c["obs"]) >= 2 and rng.random() < 0.8:
+        if len(c["obs"]) >= 2 and not c.get("cov") and all("stdev" in ob for ob in c["obs"]) and rng.random() < 0.8:
             sds = [ob["stdev"] for ob in c["obs"]]
             cov, _ = netgen.band_cov(rng, sds, rng.randint(1, len(sds) - 1))
             c["cov"] = cov
@@ -63,7 +63,7 @@ def adjusted_ok(o):
     return o["res"] is not None and o["res"].get("error") is None
 
 
-def compare_results(a, b, ctol=2e-6, rtol=2e-6, check_cov=True, check_obs=True):
+def compare_results(a, b, ctol=2e-6, rtol=2e-6, check_cov=True, check_obs=True, covtol=2e-5):
     """differences between two parsed adjustment results (same input); returns list of strings"""
     d = []
     for k in ("equations", "unknowns", "dof", "defect", "connected", "coord_summary", "obs_summary"):
@@ -93,7 +93,7 @@ def compare_results(a, b, ctol=2e-6, rtol=2e-6, check_cov=True, check_obs=True):
         else:
             sc = max([1e-12] + [abs(v) for v in a["cov"]["flt"]])
             for i, (u, v) in enumerate(zip(a["cov"]["flt"], b["cov"]["flt"])):
-                if abs(u - v) > 2e-5 * sc:
+                if abs(u - v) > covtol * sc:
                     d.append("cov-mat element %d: %.8g vs %.8g" % (i, u, v))
                     break
     if check_obs:
